@@ -1142,25 +1142,40 @@ def df_single_output_rule(ctx, rid):
     vn = [p_ for p_ in df.positional if "var_names" in p_]
     need(len(vn) == 1, "anchor lost: var_names parameter of results_to_df")
     vn = vn[0]
-    zips = [c for c in ast.walk(df.node) if isinstance(c, ast.Call) and norm(c.func) == "zip" and len(c.args) == 2 and norm(c.args[0]) == vn]
-    if not zips:
-        direct = [s for s in ast.walk(df.node) if isinstance(s, ast.Assign) and isinstance(s.targets[0], ast.Subscript) and vn in norm(s.targets[0].slice)]
-        if direct:
-            raise AnalysisError("idiom changed: results_to_df pairs names and results without zip")
-        raise AnalysisError("anchor lost: results_to_df does not pair %s with the results" % vn)
+    from ..util import callee_func
+    sites = [(df, z, None) for z in ast.walk(df.node) if isinstance(z, ast.Call) and norm(z.func) == "zip" and len(z.args) == 2 and norm(z.args[0]) == vn]
+    for n, c, nm in all_calls(ctx, df):
+        h = callee_func(ctx, df, c)
+        if h is not None and h.module is df.module and h is not df:
+            binding = {}
+            for pname, a in zip(h.positional, c.args):
+                binding[pname] = a
+            for k in c.keywords:
+                if k.arg:
+                    binding[k.arg] = k.value
+            hv = [pn for pn, a in binding.items() if norm(a) == vn]
+            for z in ast.walk(h.node):
+                if isinstance(z, ast.Call) and norm(z.func) == "zip" and len(z.args) == 2 and hv and norm(z.args[0]) == hv[0]:
+                    ctx.touch(h)
+                    sites.append((h, z, binding))
+    if not sites:
+        raise AnalysisError("anchor lost: results_to_df does not pair %s with the results (directly or in a helper it calls)" % vn)
 
-    def normalised(e, depth=0):
-        if isinstance(e, ast.Call) and callee_name(ctx, df, e) == NORMALISER:
+    def normalised(fn, e, binding, depth=0):
+        if isinstance(e, ast.Call) and callee_name(ctx, fn, e) == NORMALISER:
             return True
         if isinstance(e, ast.Name) and depth < 3:
-            d = [v for _, v in assignments_to(df, e.id) if v is not None]
-            return bool(d) and all(normalised(v, depth + 1) for v in d)
+            d = [v for _, v in assignments_to(fn, e.id) if v is not None]
+            if d:
+                return all(normalised(fn, v, binding, depth + 1) for v in d)
+            if binding and e.id in binding:
+                return normalised(df, binding[e.id], None, depth + 1)
         return False
 
-    def branch_on_count(node):
+    def branch_on_count(fn, node, v):
         p = getattr(node, "_parent", None)
-        while p is not None and p is not df.node:
-            if isinstance(p, ast.If) and ("len(%s)" % vn) in norm(p.test):
+        while p is not None and p is not fn.node:
+            if isinstance(p, ast.If) and ("len(%s)" % v) in norm(p.test):
                 return True
             p = getattr(p, "_parent", None)
         return False
@@ -1168,15 +1183,129 @@ def df_single_output_rule(ctx, rid):
     for lp in ast.walk(df.node):
         if isinstance(lp, ast.For):
             loopvars |= {x.id for x in ast.walk(lp.target) if isinstance(x, ast.Name)}
-    for z in zips:
+        elif isinstance(lp, ast.comprehension):
+            loopvars |= {x.id for x in ast.walk(lp.target) if isinstance(x, ast.Name)}
+    for fn, z, binding in sites:
         x = z.args[1]
-        if normalised(x) or branch_on_count(z):
-            rr.ok("zip(%s, %s): single-output convention normalised first" % (vn, norm(x)[:50]))
-        elif isinstance(x, ast.Name) and x.id in loopvars:
-            rr.bad(ctx.finding(rid, df, z, "`%s` pairs the names with the raw result: with one declared output an iterable result (1-d array, string) is split and the row keeps only its first element ('hello' -> 'h'); "
+        raw = x
+        if binding and isinstance(x, ast.Name) and x.id in binding and not [v for _, v in assignments_to(fn, x.id) if v is not None]:
+            raw = binding[x.id]
+        if normalised(fn, x, binding) or branch_on_count(fn, z, norm(z.args[0])):
+            rr.ok("%s: zip(%s, %s): single-output convention normalised first" % (fn.name, norm(z.args[0]), norm(x)[:50]))
+        elif isinstance(raw, ast.Name) and raw.id in loopvars:
+            rr.bad(ctx.finding(rid, fn, z, "`%s` pairs the names with the raw result: with one declared output an iterable result (1-d array, string) is split and the row keeps only its first element ('hello' -> 'h'); "
                                "the Dataset sibling normalises through parse_combo_results first" % norm(z), construct="single-output-split"), "single output")
         elif isinstance(x, (ast.List, ast.Tuple)) and len(x.elts) == 1:
-            rr.ok("zip(%s, [%s]): explicit single-output wrap (fallback)" % (vn, norm(x.elts[0])))
+            rr.ok("zip(%s, [%s]): explicit single-output wrap (fallback)" % (norm(z.args[0]), norm(x.elts[0])))
         else:
             raise AnalysisError("idiom changed: results_to_df pairs %s with `%s`" % (vn, norm(x)))
+    return rr
+
+
+def case_normalisation_rule(ctx, rid):
+    """C02.R7: cases spelled as dicts already name their arguments;
+    parse_cases must hand them on with every key and value intact (the tuple
+    spelling is zipped with fn_args).  A rebuild of the dicts that iterates
+    another key source or filters keys drops requested arguments."""
+    rr = ctx.rule(rid, "parse_cases: dict-spelled cases are passed on with all their keys and values (only the container is normalised)", floor=2)
+    f = ctx.prog.need_func(PREP + ".parse_cases")
+    ctx.touch(f)
+    p0 = f.positional[0]
+    ifs = [n for n in walk_shallow(f.node) if isinstance(n, ast.If) and isinstance(n.test, ast.Call) and norm(n.test.func) == "isinstance" and len(n.test.args) == 2 and norm(n.test.args[1]) == "dict"
+           and norm(n.test.args[0]) in (p0, "%s[0]" % p0)]
+    need(len(ifs) >= 2, "anchor lost: the dict branches of parse_cases (%d found)" % len(ifs))
+    OK_RETURNS = {p0, "(%s,)" % p0, "tuple(%s)" % p0, "[%s]" % p0, "list(%s)" % p0}
+    for br in ifs:
+        tag = norm(br.test)
+        bad = None
+        rets = 0
+        for st in ast.walk(ast.Module(body=br.body, type_ignores=[])):
+            if isinstance(st, ast.Return):
+                rets += 1
+                if st.value is None or norm(st.value) not in OK_RETURNS:
+                    comps = [c for c in ast.walk(st.value)] if st.value is not None else []
+                    if any(isinstance(c, (ast.DictComp, ast.Dict)) or (isinstance(c, ast.Call) and norm(c.func) == "dict") for c in comps):
+                        bad = bad or (st, "returns rebuilt dicts `%s`" % norm(st.value)[:70])
+                    else:
+                        raise AnalysisError("idiom changed: parse_cases returns `%s` for dict-spelled cases" % (norm(st.value) if st.value is not None else None))
+            elif isinstance(st, ast.Assign) and any(isinstance(t, ast.Name) and t.id == p0 for t in st.targets):
+                v = st.value
+                if norm(v) in OK_RETURNS:
+                    continue
+                dcs = [c for c in ast.walk(v) if isinstance(c, ast.DictComp)]
+                if dcs:
+                    dc = dcs[0]
+                    gen = dc.generators[0]
+                    outer = [gg for c in ast.walk(v) if isinstance(c, (ast.GeneratorExp, ast.ListComp)) for gg in c.generators]
+                    casevars = {x.id for gg in outer for x in ast.walk(gg.target) if isinstance(x, ast.Name)}
+                    it = norm(gen.iter)
+                    total = (it in casevars or any(it in ("%s.items()" % cv, "%s.keys()" % cv) for cv in casevars)) and not gen.ifs
+                    if not total:
+                        bad = bad or (st, "rebuilds each case as `%s`: keys of the case not produced by `%s`%s are dropped, so the function is called without a requested argument" % (norm(dc)[:70], it, " (filtered)" if gen.ifs else ""))
+                else:
+                    raise AnalysisError("idiom changed: parse_cases rewrites dict-spelled cases with `%s`" % norm(v)[:80])
+        need(rets >= 1, "idiom changed: dict branch of parse_cases does not return")
+        if bad:
+            rr.bad(ctx.finding(rid, f, bad[0], "for dict-spelled cases (%s) parse_cases %s" % (tag, bad[1]), construct="case-keys-dropped"), "dict cases intact [%s]" % tag)
+        else:
+            rr.ok("%s: cases handed on unchanged" % tag, tag)
+    return rr
+
+
+# xarray combine options that change which labels / values survive (xarray
+# documentation of concat / merge / align; trusted library table):
+#   join: 'outer' keeps the union of labels (default); 'inner' / 'left' /
+#   'right' drop labels; 'override' copies the first object's index onto the
+#   others (relabels); 'exact' raises on any difference (no silent change).
+#   compat='override' skips the comparison and takes the first object's values.
+LABEL_DESTROYING = {"join": {"inner": "keeps only the labels common to all pieces", "left": "keeps only the first piece's labels", "right": "keeps only the last piece's labels",
+                             "override": "copies the first piece's coordinate onto every other piece (relabels their data)"},
+                    "compat": {"override": "skips the comparison of coinciding variables and keeps the first piece's values"}}
+
+
+def combine_options_rule(ctx, rid):
+    """C03.R9: the per-setting results (Datasets / DataArrays returned by the
+    function) are concatenated with xarray options under which every piece
+    keeps its own internal coordinate labels."""
+    rr = ctx.rule(rid, "xarray concat / merge calls that assemble the labelled results use no label- or value-destroying option (join in inner/left/right/override, compat='override')", floor=2)
+    prog = ctx.prog
+    funcs = [prog.need_func(CR + ".multi_concat"), prog.need_func(CR + ".results_to_ds")]
+    n = 0
+    for f in funcs:
+        ctx.touch(f)
+        for c in [c for c in ast.walk(f.node) if isinstance(c, ast.Call)]:
+            nm = callee_name(ctx, f, c) or ""
+            last = norm(c.func).rsplit(".", 1)[-1]
+            if not (nm in ("xarray.concat", "xarray.merge", "xarray.align", "xarray.combine_by_coords", "xarray.combine_nested") or (isinstance(c.func, ast.Attribute) and last in ("merge", "combine_first") and nm not in ("builtins.dict.update",))):
+                continue
+            n += 1
+            opts = {}
+            for k in c.keywords:
+                if k.arg is not None:
+                    opts[k.arg] = k.value
+                else:
+                    d = k.value
+                    if isinstance(d, ast.Name):
+                        sd = single_def(f, d.id)
+                        d = sd[1] if sd and sd[1] is not None else f.module.consts.get(d.id)
+                    if isinstance(d, ast.Call) and norm(d.func) == "dict" and not d.args:
+                        d = ast.Dict(keys=[ast.Constant(k2.arg) for k2 in d.keywords], values=[k2.value for k2 in d.keywords])
+                    if not isinstance(d, ast.Dict) or not all(isinstance(k2, ast.Constant) for k2 in d.keys):
+                        raise AnalysisError("idiom changed: options of `%s` are not a literal mapping" % norm(c)[:60])
+                    for k2, v2 in zip(d.keys, d.values):
+                        opts[k2.value] = v2
+            bad = None
+            for opt, table in LABEL_DESTROYING.items():
+                if opt in opts:
+                    v = opts[opt]
+                    if not (isinstance(v, ast.Constant) and isinstance(v.value, str)):
+                        raise AnalysisError("idiom changed: %s= of `%s` is not a literal" % (opt, norm(c)[:50]))
+                    if v.value in table:
+                        bad = (opt, v.value, table[v.value])
+            if bad:
+                rr.bad(ctx.finding(rid, f, c, "`%s` is called with %s=%r, which %s: results whose internal coordinates differ between settings are silently mislabelled / lose points" % (norm(c.func), bad[0], bad[1], bad[2]),
+                                   construct="combine-option %s=%s" % (bad[0], bad[1])), "%s options" % f.name)
+            else:
+                rr.ok("%s: %s(%s) keeps every piece's labels" % (f.name, norm(c.func), ", ".join("%s=%s" % (k, norm(v)) for k, v in sorted(opts.items()))), "%s|%s" % (f.name, c.lineno))
+    need(n >= 2, "anchor lost: concat calls assembling the results (%d)" % n)
     return rr
